@@ -168,13 +168,8 @@ def r6_2(model: Model, rep: Report) -> None:
                    and any(c == ("not", ("isinstance", args["expression"], ("y0.dsl.PopulationProbability",))) for c in p.conds)]
             if not rej:
                 problems.append("a plain (untagged) Probability is not rejected")
-            # the activated leaf keeps only children outside the experiment, no conditioning set
-            for p in return_paths(paths):
-                for s in subterms(p.value):
-                    if s[0] in ("rec", "new") and str(s[1]).endswith("PopulationProbability"):
-                        d = dict(s[2] if s[0] == "rec" else s[3]).get("distribution")
-                        if any(x[0] == "attr" and x[2] == "parents" for x in subterms(d)):
-                            problems.append("the activated leaf carries the sub-result's conditioning set (which may contain variables that are not part of the declared experiment's distribution)")
+            # (whether the leaf is rebuilt correctly -- children AND conditioning set moved into the experimental world -- is R6.5's reference
+            # comparison; an earlier clause here demanded that the conditioning set be dropped, which was the code's behaviour, not the algorithm's)
         if n_leaf == 0:
             problems.append("no PopulationProbability construction found (anchor changed)")
         (rep.refuted if problems else rep.proven)("R6.2", construct(f, "population-tag"), "; ".join(sorted(set(problems))), loc(f), sample={"leaf constructions": n_leaf})
@@ -457,3 +452,12 @@ def r6_5(model: Model, rep: Report) -> None:
     run_table(model, rep, table, "yvref.c06", lambda m_, prims: (lambda: Evaluator(m_, primitives=set(GRAPH_PRIMS) | set(prims),
                                                                                      prim_methods={"add_node", "add_directed_edge", "add_undirected_edge"})),
               SetAlg(rewriter(graph_rewrite)), construct=construct, loc=loc, post=nxden.post)
+    EX = ("cls", "y0.dsl.Expression")
+    from .dslcommon import DSL_PRIMS
+    run_table(model, rep, [
+        ("R6.5", f"{TR}.activate_domain_and_interventions", "activated", {"expression": EX, "interventions": VS, "domain": V}, (), "whole-term-moves",
+         "every probability term moves into the source domain's experimental world as a whole -- children AND conditioning set subscripted with the "
+         "experiment, tagged with that domain; variables the experiment fixes drop out and a term with no child left is One(); sums keep their ranges; "
+         "products and fractions part by part"),
+    ], "yvref.c06", lambda m_, prims: (lambda: Evaluator(m_, primitives=set(DSL_PRIMS) | set(prims), prim_methods={"intervene", "given", "simplify", "__truediv__", "_new"})),
+        SetAlg(rewriter(graph_rewrite)), construct=construct, loc=loc)
